@@ -6,6 +6,7 @@ import (
 	_ "embed"
 	"fmt"
 	"runtime/debug"
+	"sort"
 	"strconv"
 	"strings"
 
@@ -119,6 +120,9 @@ type Out struct {
 	Hung     bool // exceeded the logical step budget (non-advancing loop)
 	HungSite string
 	Steps    int64
+	// Mutated: the call changed the parameter map it was given (description of
+	// the difference); the map has been restored.
+	Mutated string
 }
 
 // Anomalous reports a panic or a step overrun.
@@ -155,9 +159,39 @@ func Compile(src string, params map[string]string) (sql string, err error, o Out
 	defer guard(&o)
 	if params == nil {
 		sql, err = pql.Compile(src)
-	} else {
-		sql, err = (&pql.CompileOptions{Parameters: params}).Compile(src)
+		return
 	}
+	// the caller's map is watched: it must hold the same entries afterwards
+	before := make(map[string]string, len(params))
+	for k, v := range params {
+		before[k] = v
+	}
+	defer func() {
+		var diff []string
+		for k, v := range params {
+			if bv, ok := before[k]; !ok {
+				diff = append(diff, fmt.Sprintf("added %q=%q", k, v))
+			} else if bv != v {
+				diff = append(diff, fmt.Sprintf("changed %q from %q to %q", k, bv, v))
+			}
+		}
+		for k := range before {
+			if _, ok := params[k]; !ok {
+				diff = append(diff, fmt.Sprintf("removed %q", k))
+			}
+		}
+		if len(diff) > 0 {
+			sort.Strings(diff)
+			o.Mutated = strings.Join(diff, ", ")
+			for k := range params {
+				delete(params, k)
+			}
+			for k, v := range before {
+				params[k] = v
+			}
+		}
+	}()
+	sql, err = (&pql.CompileOptions{Parameters: params}).Compile(src)
 	return
 }
 
